@@ -64,6 +64,8 @@ pub const ATTR_NAMES: &[&str] = &[
     "=", "a\"b", "a'b", "a<b",
     // characters whose trail byte in Shift_JIS / Big5 / GBK is an ASCII letter or punctuation
     "ア", "表", "dカ", "功",
+    // placeholder replaced by a raw BOM-like byte prefix + "n" after encoding (see bomify)
+    "BOMNAME",
 ];
 
 pub const ATTR_VALUES: &[&str] = &[
@@ -323,6 +325,10 @@ fn tree_node(rng: &mut Rng, d: &mut GenDoc, depth: usize, o: &TreeOpts) {
         d.push(FragKind::RawElement, format!("<{n}>a<b>c</b>&amp;</{n}>").as_bytes());
     } else if r < 50 && o.foreign && depth < o.max_depth {
         foreign_island(rng, d, depth, o);
+        if o.sloppy && rng.chance(1, 3) {
+            let l = cdata_lookalike(rng);
+            d.push(FragKind::Bogus, l.as_bytes());
+        }
     } else if r < 54 && o.sloppy {
         // stray end tag
         let n = rng.pick(TREE_NAMES);
@@ -1003,4 +1009,29 @@ pub fn bundled_observers(rng: &mut Rng) -> (Vec<HandlerSpec>, Vec<usize>) {
         joins.extend([base + 1, base + 2, base + 3]);
     }
     (hs, joins)
+}
+
+/// Replace every "BOMNAME" placeholder by raw byte-order-mark-like bytes followed by "n": names and
+/// values that merely *start* with EF BB BF / FF FE / FE FF must be decoded in the document encoding.
+pub fn bomify(rng: &mut Rng, doc: &mut Vec<u8>) {
+    let pat = b"BOMNAME";
+    let mut i = 0;
+    while i + pat.len() <= doc.len() {
+        if doc[i..i + pat.len()].eq_ignore_ascii_case(pat) {
+            let bom: &[u8] = rng.pick(&[&[0xEFu8, 0xBB, 0xBF][..], &[0xFF, 0xFE], &[0xFE, 0xFF]]);
+            let mut rep = bom.to_vec();
+            rep.push(b'n');
+            doc.splice(i..i + pat.len(), rep.iter().copied());
+            i += rep.len();
+        } else {
+            i += 1;
+        }
+    }
+}
+
+/// After a foreign island: a CDATA-looking construct in HTML content (a bogus comment that ends at
+/// the first '>') with real markup behind it — text-mode / CDATA decisions must survive mode switches.
+pub fn cdata_lookalike(rng: &mut Rng) -> String {
+    let inner = rng.pick(&["x > <b id=x>bold</b> ", "><i>i</i>", " a > <span class=foo>s</span>", "]]><em>e</em>"]);
+    format!("<![CDATA[{inner}]]>")
 }
